@@ -28,6 +28,10 @@ claimed = {
    text="Model checking of histories on the real code: (1) every history of 1-2 Eval calls over a pool of ~250 programs x 4 documents (about 1M histories; thorough adds all length-3 histories over the 46 state-sensitive programs) and the 5-fold repetition/alternation shapes, each step compared with the outcome of the same call run alone as the only call of a fresh process, and the expression's syntax tree, printed form and registry compared with their values after Compile; (2) explicit-state breadth-first search over the same menu on pooled expressions, states identified by a fingerprint of every syntax tree, printed form, registry and built-in function object (hook accessors), invariant checked on every transition.",
    note="Trusted: the solo outcomes (one fresh process per call), the fingerprint accessors behind the verif tag (VerifRoot, VerifRegistry, VerifBaseEnv). Results whose order follows Go map iteration are compared as multisets (sanctioned). Programs outside the pool and histories longer than 3 are not covered. A difference that depends on earlier cases of the same worker process is confirmed by deterministically re-running that worker's case sequence.",
    technique="exhaustive enumeration of bounded Eval histories + explicit-state BFS with state fingerprints over the real implementation", design="§5 C05", engine="E1 + E3 (mc/props/c05.go: history enumeration and fingerprint BFS)"),
+ "C06": dict(
+   text="Stateless model checking of the implementation under a controlled scheduler: 2-3 real goroutines running real Compile/Eval/Register* calls, one at a time, switching only at hooked points (entry of eval() for every node, reflective calls, accesses to callable name/context, ~> argument lists, registries and the registry mutex, modelled as blocking), with every switch a recorded choice; depth-first enumeration of ALL schedules with 0, 1 and 2 preemptions (thorough: 3, plus a three-thread family) over 270 scenarios chosen to collide (same built-in from different Exprs, one shared Expr, full-argument and bare-function calls, Compile against package-level registration with and without prior registration). Oracle per schedule: every Eval returns its solo outcome, Compile sees exactly the registrations that happened before it (logical clock), no deadlock, and a vector-clock happens-before monitor finds no unordered conflicting access on a hooked location.",
+   note="Trusted: the hook points (build tag verif) as the scheduling granularity, the lock model of the registry RWMutex, garbage collection disabled during an execution so that addresses identify objects. Word tearing / reordering below hook granularity and unhooked locations are only visible to the auxiliary free-running pass of the same bodies under go build -race (reported as coverage.aux, sampling, never deciding). More than 3 threads or 2 operations per thread are not explored.",
+   technique="preemption-bounded exhaustive schedule exploration (stateless DFS) of the real code + vector-clock race monitor", design="§5 C06", engine="E2 cooperative scheduler (mc/sched) driven by E1's chooser"),
 }
 pending_reason = "check not built yet in this session (planned, see DESIGN.md §5)"
 
